@@ -86,6 +86,8 @@ theorem normal_mean_var (μ σ : ℝ) :
   · rw [integral_id_gaussianReal]; rfl
   · rw [variance_id_gaussianReal]; simp [Normal.var, sq, coe_sqNN]
 
+example : Normal.pdf RF 0 1 0 = gaussianPDFReal 0 (sqNN 1) 0 := normal_pdf_eq_gaussianPDFReal erf 0 1 0 one_pos
+
 /-! ## Gamma, Exponential, ChiSquared -/
 
 /-- **Gamma density = Mathlib's `gammaPDFReal α β`** (shape `α`, rate `β`) at every `x ≠ 0`.  (At `x = 0` the code returns
@@ -266,8 +268,8 @@ theorem uniform_pdf_integral (a b : ℝ) (hab : a < b) : ∫ x in a..b, Uniform.
   rw [intervalIntegral.integral_congr this, intervalIntegral.integral_const, smul_eq_mul]
   field_simp [sub_ne_zero.mpr hab.ne']
 
-/-- **Gumbel density is the derivative of the Gumbel CDF** `exp (-exp (-(x-μ)/β))` at every `x`, for `β ≠ 0`. -/
-theorem gumbel_pdf_hasDerivAt (μ β x : ℝ) (hβ : β ≠ 0) :
+/-- **Gumbel density is the derivative of the Gumbel CDF** `exp (-exp (-(x-μ)/β))` at every `x`. -/
+theorem gumbel_pdf_hasDerivAt (μ β x : ℝ) :
     HasDerivAt (Spec.gumbelCdf μ β) (Gumbel.pdf μ β x) x := by
   unfold Spec.gumbelCdf
   have h1 : HasDerivAt (fun y : ℝ => -((y - μ) / β)) (-(1 / β)) x := by
@@ -373,7 +375,7 @@ theorem binomial_pmf_p_one (F : Fns ℝ) (n k : ℕ) (hk : k ≤ n) :
       have : (k : ℝ) ≠ (n : ℝ) := by exact_mod_cast h.ne
       simpa using this
     have : n - k ≠ 0 := by omega
-    simp [hne, this, h.ne]
+    simp [this, h.ne]
   · have : k = n := le_antisymm hk h
     subst this; simp
 
@@ -402,6 +404,13 @@ theorem binomial_pmf_sum (F : Fns ℝ) (hF : ∀ n : ℕ, Real.exp (F.lnGamma ((
   rw [Finset.sum_congr rfl this, ← add_pow]
   simp
 
+/-- Non-vacuity: the hypotheses on the special functions are met by the ideal ones (`Real.Gamma`, `Real.log (1 + ·)`). -/
+example : ∑ k ∈ Finset.range (5 + 1), Binomial.pmf RF 5 (1 / 2) (k : ℤ) = 1 :=
+  binomial_pmf_sum RF (realFns_lnGamma_factorial erf) (fun _ => rfl) 5 (1 / 2) (by norm_num) (by norm_num)
+
+example : Poisson.pmf RF 3 ((2 : ℕ) : ℤ) = Real.exp (-3) * 3 ^ 2 / ((2 : ℕ).factorial : ℝ) :=
+  poisson_pmf_eq RF (realFns_lnGamma_factorial erf) 3 (by norm_num) 2
+
 /-! ## Bernoulli and DiscreteUniform: finite laws in closed form (any `p`, any bounds) -/
 
 /-- **Bernoulli**: total mass, first moment and second central moment of the pmf are `1`, `mean()`, `var()`. -/
@@ -410,7 +419,7 @@ theorem bernoulli_moments (p : ℝ) :
     (∑ k ∈ Finset.range 2, (k : ℝ) * Bernoulli.pmf p (k : ℤ) = Bernoulli.mean p) ∧
     (∑ k ∈ Finset.range 2, ((k : ℝ) - Bernoulli.mean p) ^ 2 * Bernoulli.pmf p (k : ℤ) = Bernoulli.var p) := by
   simp only [Finset.sum_range_succ, Finset.sum_range_zero, Bernoulli.pmf, Bernoulli.mean, Bernoulli.var]
-  refine ⟨?_, ?_, ?_⟩ <;> norm_num <;> ring
+  refine ⟨?_, ?_, ?_⟩ <;> (norm_num; try ring)
 
 theorem bernoulli_pmf_zero_outside (p : ℝ) (k : ℤ) (h0 : k ≠ 0) (h1 : k ≠ 1) : Bernoulli.pmf p k = 0 := by
   simp [Bernoulli.pmf, h0, h1]
@@ -459,7 +468,7 @@ theorem discreteUniform_moments (lo : ℤ) (n : ℕ) :
         ((lo : ℝ) + (i : ℝ)) * (1 / ((n : ℝ) + 1)) := by
       intro i _; push_cast; ring
     rw [Finset.sum_congr rfl this, ← Finset.sum_mul, Finset.sum_add_distrib, s1, Finset.sum_const, Finset.card_range]
-    simp only [nsmul_eq_mul]; push_cast; field_simp; ring
+    simp only [nsmul_eq_mul]; push_cast; field_simp
   · rw [Finset.sum_congr rfl (fun i hi => by rw [hpm i hi]), hmean, hvar]
     have : ∀ i ∈ Finset.range (n + 1), (((lo + i : ℤ) : ℝ) - ((lo : ℝ) + (n : ℝ) / 2)) ^ 2 * (1 / ((n : ℝ) + 1)) =
         ((i : ℝ) ^ 2 - (n : ℝ) * (i : ℝ) + (n : ℝ) ^ 2 / 4) * (1 / ((n : ℝ) + 1)) := by
@@ -538,9 +547,7 @@ theorem mvn_pdf_rejects (F : Fns ℝ) (d : MVN ℝ) (x : List ℝ)
   rcases h with h | h
   · simp [MVN.pdf, h]
   · simp only [MVN.pdf]
-    split
-    · rfl
-    · rw [if_pos h]
+    split <;> rfl
 
 /-- **`ln_pdf` of the MVN is the logarithm of its `pdf`** when the cached determinant is positive. -/
 theorem mvn_lnPdf_eq_log_pdf (d : MVN ℝ) (x : List ℝ) (hD : 0 < d.det) (hlen : x.length < 2 ^ 64) :
